@@ -27,3 +27,17 @@ Definition ir_trapz (v : Z) : bool := negb (v =? 0).
 
 (** the variables of the compiled function used by the bounds check *)
 Record clvars := { v_stack_start : Z; v_stack_end : Z; v_mem_start : Z; v_mem_end : Z; v_mbuf_start : Z; v_mbuf_end : Z }.
+
+(** width changes *)
+Definition ir_ireduce (wfrom wto v : Z) : Z := v mod 2 ^ wto.
+Definition ir_uextend (wfrom wto v : Z) : Z := v.
+Definition ir_sextend (wfrom wto v : Z) : Z := (sgn wfrom v) mod 2 ^ wto.
+(** division traps on a zero divisor *)
+Definition ir_udiv (w a b : Z) : res Z := if b =? 0 then Panic 0 else Ok (a / b).
+Definition ir_urem (w a b : Z) : res Z := if b =? 0 then Panic 0 else Ok (a mod b).
+(** shifts: the amount is masked to the width of the shifted value *)
+Definition ir_ishl (w a b : Z) : Z := (a * 2 ^ (b mod w)) mod 2 ^ w.
+Definition ir_ushr (w a b : Z) : Z := a / 2 ^ (b mod w).
+Definition ir_sshr (w a b : Z) : Z := (sgn w a / 2 ^ (b mod w)) mod 2 ^ w.
+Definition ir_ineg (w a : Z) : Z := (- a) mod 2 ^ w.
+Definition ir_select (c a b : Z) : Z := if c =? 0 then b else a.
